@@ -15,19 +15,19 @@ TEXT = {
     "C04": ('control-flow state machine shape (FIELDS, KIND, ERRFLOW)', 'Decides who writes the control-flow state, that it is inspected between two executed statements, the 4-row loop table, loop re-evaluation, one-branch if, statement dispatch completeness, the truthiness terms that decide conditions and that no runtime error is swallowed. Does not decide the trace of a concrete program.'),
     "C05": ("PAIR + FIELDS + event order", "Decides scope push/pop pairing per activation on every non-error path, innermost-first lookup, pronoun-referent writers, the call protocol order, the return-value writers (the expression is evaluated on every path), that every opened scope is a fresh table and who may obtain a mutable variable cell (the write visitor only). Dynamic shadowing on concrete programs is not decided."),
     "C06": ('TYPES + unsafe census + make_mut discipline + KIND tables + EVAL-ONCE', 'Independence of copies is decided by construction (no interior mutability or raw pointer in Val, every mutable access to shared array storage through Rc::make_mut, no unsafe write path); kind-level error tables, queue ends and the decay law are decided on the extracted tables; every child expression is evaluated at most once per statement (reviewed re-evaluations excepted), nested subscripts are applied innermost-first, the key is the evaluated subscript itself, and a key of kind k addresses the slot of kind k for reads and writes alike (KIND table). Exact extension length and dictionary contents are not decided.'),
-    "C07": ("FIELDS protocol + KIND tables + CENSUS", "Decides the into-vs-in-place protocol, operator->transformation dispatch, wrong-kind => error tables that no panicking callee precondition is left open, that no integer `as` cast can wrap around, where floats may be converted to integers at all, and that the radix parse is i64::from_str_radix of the string itself. The exact pieces of a split, radix arithmetic and rounding of halves are not decided."),
+    "C07": ("FIELDS protocol + KIND tables + CENSUS", "Decides the into-vs-in-place protocol, operator->transformation dispatch, wrong-kind => error tables that no panicking callee precondition is left open, that no integer `as` cast can wrap around, where floats may be converted to integers at all, that the radix parse is i64::from_str_radix of the string itself, that a string is read as a number by str::parse::<f64> of the string itself, and that the rounding writer only dispatches. The exact pieces of a split, radix arithmetic and rounding of halves are not decided."),
     "C08": ('FIELDS + ERRFLOW + must-pass-through + type-level pass-through + KIND fault table', "Decides: exactly one complete write per say and one read per listen before the destination branch, on every path; I/O errors converted and propagated; a failed stream operation <=> Err for every kind of fault and buffer state (KIND table of Environment::output/input); nobody else touches the streams; no layer is put between the caller's streams and the interpreter. Byte-exact content is not decided."),
     "C09": ("CENSUS + BORROW", "Absence by enumeration of panic/UB-capable constructs reachable from execution and error rendering in both profiles; RefCell borrow overlap; unimplemented visitor paths unreachable. Stack depth and memory exhaustion are outside the property's budget and not decided."),
     "C10": ("ORDER taint + TYPES", "Every source of nondeterminism (hash iteration, addresses, time, randomness, threads, environment) is enumerated over the whole library and must reach an order-insensitive consumer; lint-pass state does not survive from one run to the next; the I/O shape does not depend on how the streams deliver bytes; equality and hash of dictionary keys agree. Assumes std and the dependencies are deterministic."),
     "C12": ('UNITS + freshness of line state + ORDERINGS', 'Decides that position arithmetic is dimensionally consistent (byte offsets, lengths, lines, columns), that the line state is never read stale and who writes it, that a merged token keeps its line information, that the buffer is the text the caller passed and that the spelling of a token is the slice its range covers, and -- exhaustively over the order configurations of lines and columns -- that range construction and concatenation normalise lexicographically. Does not decide that a reported column equals the true column of a concrete text.'),
-    "C13": ('PROGRESS + ERRFLOW + TABLE', "Decides end-of-statement enforcement on every path, that parse errors are never swallowed, that Ok(Program) is only returned at end of input, that 'no statement here' token kinds are all handled, that a token is never taken from the stream before it was accepted when an error located at the current token can follow, which words may be left out, and that the printed line of a token location is the start line of its range. That the lexer's line for a concrete text is right is C12's business."),
+    "C13": ('PROGRESS + ERRFLOW + TABLE', "Decides end-of-statement enforcement on every path, that parse errors are never swallowed, that Ok(Program) is only returned at end of input, that 'no statement here' token kinds are all handled, that a token is never taken from the stream before it was accepted when an error located at the current token can follow, which words may be left out, that a matched `into` is followed by a required parser and build/knock demand their suffix, and that the printed line of a token location is the start line of its range. That the lexer's line for a concrete text is right is C12's business."),
     "C14": ('KIND truth tables and symmetry', 'Decides the mirror laws of the derived comparison operators and of and/or/nor as exhaustive finite truth tables, symmetry of the coercion table over all 36 kind pairs, that equality and ordering share one coercion, that `not` is !is_truthy of the operand itself, that a compound assignment reaches its write only through the binary operator fold and that `let x be <op> e` is always parsed as the compound form. NaN/-0 instances and the build/knock round trip are not decided.'),
     "C15": ('sanitizer-before-sink (FIELDS) + TABLE + who-may-compare (monomorphic call graph)', "Decides that every symbol-table key operation and the keyword lookup are case-folded first, that the fold covers every string field of every name kind, that table keys are lower-case, that only Unicode case functions are used on characters (never on bytes) and that nothing but the folded symbol-table lookups (and the linter's spelling rule) compares names. The relation between two runs is not decided."),
     "C16": ('COVER (type-derived child coverage) + bridge + short-circuit + order', 'Decides that every visitable child of every AST node (derived from the ADT definitions of the analysed tree) is visited exactly once on every non-error path by the default traversal and the runner, in field order, results combined in the order produced, that the bridge forwards every method, that the first error ends the walk (checked results, short-circuiting consumers of lazily mapped visits) and no error is rewritten or dropped.'),
     "C17": ("agreement between two evaluators (KIND/TABLE)", "Decides that folder and interpreter agree on operator->arithmetic mapping, operand order, fold direction and poetic-literal evaluation, and that every non-constant node kind yields Err in both folders. Equality of numeric results on a concrete expression is not decided."),
     "C18": ('KIND + CENSUS + dataflow', 'Decides which statements are inspected and skipped, that the linter path is panic-free, that suggestion bytes are ASCII, that suggestions are guarded, that the whole right-hand side is judged, that no float-to-integer conversion produces text and that the text of a constant is the plain Display of the f64. That the words spell the value digit by digit is not decided.'),
     "C19": ('CENSUS + TYPES + FIELDS + KIND', 'Decides linter panic-freedom, that the program cannot be modified (type-level), stable sort and merge in pass order, the match_or_update table and that pass state does not survive from one run to the next. Exactness of the repeated-identifier rule on concrete programs is not decided.'),
-    "C20": ('CLI wiring (FIELDS, TABLE, ERRFLOW, dataflow)', 'Decides that the CLI uses the same library entry points, that `parse` prints the tree on every path, which stream each arm writes, the error prefixes, the exit-code table, error propagation, and that a rendered diagnostic depends on all its fields and terminates its own line. Byte equality of binary and library output is not decided.'),
+    "C20": ('CLI wiring (FIELDS, TABLE, ERRFLOW, dataflow)', 'Decides that the CLI uses the same library entry points, that `parse` prints the tree on every path, that diagnostic and error texts are printed as the library produced them, which stream each arm writes, the error prefixes, the exit-code table, error propagation, and that a rendered diagnostic depends on all its fields and terminates its own line. Byte equality of binary and library output is not decided.'),
 }
 
 NA = {
